@@ -22,7 +22,8 @@ BOXES = [None,
          ((4, 0, 0), (0, 4, 0), (0, 0, 4)),
          ((4, 0, 0), (0, 5, 0), (0, 0, 3.5)),
          ((4, 0, 0), (1, 4, 0), (0.5, 1, 4)),          # triclinic
-         ((4, 0, 0), (-1.5, 4, 0), (1, -1, 4))]         # triclinic, negative off-diagonal
+         ((4, 0, 0), (-1.5, 4, 0), (1, -1, 4)),         # triclinic, negative off-diagonal
+         ((2.4, -3.2, 0), (4.0, 3.0, 0), (0, 0, 3.5))]  # orthorhombic (4 x 5 x 3.5) rotated about z: orthogonal but not axis-aligned
 
 
 def _rep(f, *keys):
@@ -280,8 +281,8 @@ def check_box_images(bi, pi, amount):
     want = set()
     for i, j, k in itertools.product(range(-amount, amount + 1), repeat=3):
         for a, p in enumerate(pts):
-            want.add((a,) + tuple((p + i * box[0] + j * box[1] + k * box[2]).tolist()))
-    got = {(int(idx[r]),) + tuple(rep[r].tolist()) for r in range(len(rep))}
+            want.add((a,) + tuple(round(float(v), 9) + 0.0 for v in (p + i * box[0] + j * box[1] + k * box[2])))
+    got = {(int(idx[r]),) + tuple(round(float(v), 9) + 0.0 for v in rep[r]) for r in range(len(rep))}        # (non-dyadic box entries: compare to 1e-9)
     if got != want:
         return f"periodic images differ: {sorted(got - want)[:2]} unexpected, {sorted(want - got)[:2]} missing (box {box.tolist()})"
     inside = struc.move_inside_box(pts, box)
